@@ -10,7 +10,7 @@ name=$(basename "$sd")
 run_demo() { # $1 = worktree ; prints PASS/FAIL
   wt="$1"; demo="$sd/demo"; tmp=$(mktemp -d /tmp/demo-XXXXXX)
   if [ -f "$demo/go.mod" ]; then
-    cp -r "$demo/." "$tmp/"; sed -i "s#=> /tmp/mut-C[0-9]*#=> $wt#" "$tmp/go.mod"; rm -f "$tmp/go.sum"
+    cp -r "$demo/." "$tmp/"; sed -i "s#=> /tmp/m[a-z0-9]*-C[0-9]*#=> $wt#" "$tmp/go.mod"; rm -f "$tmp/go.sum"
     if ls "$tmp"/*_test.go >/dev/null 2>&1; then (cd "$tmp" && timeout 900 go test -tags verif -vet=off -count=1 ./... >"$tmp/out.txt" 2>&1); rc=$?
     else (cd "$tmp" && timeout 900 go run -tags verif . >"$tmp/out.txt" 2>&1); rc=$?; fi
   else
